@@ -31,6 +31,11 @@ impl Cmd {
     }
 }
 
+/// Added to a counting run: with a crash index that is never reached the
+/// process passes exactly the points a crashing run passes (two hooks only
+/// split their write in two when crash or socket mode is on).
+pub const COUNTING: (&str, &str) = ("VERYL_VERIF_CRASH_AT", "4000000000");
+
 pub fn seq_name(seq: &[Cmd]) -> String {
     seq.iter().map(|c| c.name()).collect::<Vec<_>>().join("+")
 }
